@@ -375,23 +375,82 @@ func r20ResultKeysAreRequestedIDs(c *core.Ctx) {
 		}
 	}
 	c.Check(R, "level-map-values-are-requested-ids/"+tl.Name, tl.Decl.Pos(), okVals, "tileMatrixIDsByLevels stores elements of tmIDs only", "the level->id map holds values that are not elements of the requested id list")
-	// (3) the levels handed to addPointsAndSnap are the keys of that map
+	// (3) the levels handed to addPointsAndSnap are the keys of that map (followed through helper functions)
 	okLv := false
-	info := sp.Pkg.TypesInfo
-	for _, call := range core.CallsIn(info, sp.Decl, "snap.addPointsAndSnap") {
-		lv := core.ObjOf(info, call.Args[2])
-		for _, s := range sp.Decl.Body.List {
-			if r, ok := s.(*ast.RangeStmt); ok && len(r.Body.List) == 1 && r.Value == nil {
-				if as, ok := r.Body.List[0].(*ast.AssignStmt); ok && len(as.Lhs) == 1 && core.ObjOf(info, as.Lhs[0]) == lv && lv != nil {
-					if app, ok := as.Rhs[0].(*ast.CallExpr); ok && core.IsBuiltinCall(info, app, "append") && len(app.Args) == 2 && core.ObjOf(info, app.Args[1]) == core.ObjOf(info, r.Key) {
-						if def := singleDef(info, sp.Decl.Body, core.ObjOf(info, r.X)); def != nil {
-							if dc, ok := def.(*ast.CallExpr); ok && core.IsCallTo(info, dc, "snap.tileMatrixIDsByLevels") {
-								okLv = true
+	{
+		idx := c.P.SiteIndex(c.P.VTA())
+		callers := callersIndex(c)
+		var m ssa.Value
+		for _, call := range findCalls(fn, core.ModPath+"/snap."+tl.SSA.Name()) {
+			m = call
+		}
+		var apsCall *ssa.Call
+		for _, call := range findCalls(fn, core.ModPath+"/snap."+aps.SSA.Name()) {
+			apsCall = call
+		}
+		if m != nil && apsCall != nil {
+			mflow := core.FlowOpts{Idx: idx, Follow: modFollow, Returns: true, Callers: callers}.Run([]ssa.Value{m})
+			// keys of the map, wherever it is ranged
+			var keys []ssa.Value
+			for v := range mflow {
+				if refs := v.Referrers(); refs != nil {
+					for _, r := range *refs {
+						if rg, ok := r.(*ssa.Range); ok && rg.X == v {
+							for _, rr := range *rg.Referrers() {
+								if nx, ok := rr.(*ssa.Next); ok {
+									if k := extractOf(nx, 1); k != nil {
+										keys = append(keys, k)
+									}
+								}
 							}
 						}
 					}
 				}
 			}
+			kflow := core.FlowOpts{Idx: idx, Follow: modFollow, Returns: true, ReturnsAll: true, Callers: callers, Containers: true, Appends: true}.Run(keys)
+			arg := apsCall.Call.Args[2]
+			// every element appended to the slice on its way here is such a key
+			onlyKeys := true
+			seen := map[ssa.Value]bool{}
+			var back func(v ssa.Value)
+			back = func(v ssa.Value) {
+				if v == nil || seen[v] {
+					return
+				}
+				seen[v] = true
+				switch x := v.(type) {
+				case *ssa.Phi:
+					for _, e := range x.Edges {
+						back(e)
+					}
+				case *ssa.Call:
+					if bi, ok := x.Call.Value.(*ssa.Builtin); ok && bi.Name() == "append" {
+						back(x.Call.Args[0])
+						for _, el := range sliceLitElems(x.Call.Args[1]) {
+							if !kflow[el] {
+								onlyKeys = false
+							}
+						}
+						return
+					}
+					if cal := x.Call.StaticCallee(); cal != nil && modFollow(cal) {
+						for _, b := range cal.Blocks {
+							for _, in := range b.Instrs {
+								if ret, ok := in.(*ssa.Return); ok && len(ret.Results) == 1 {
+									back(ret.Results[0])
+								}
+							}
+						}
+						return
+					}
+					onlyKeys = false
+				case *ssa.MakeSlice, *ssa.Const:
+				default:
+					onlyKeys = false
+				}
+			}
+			back(arg)
+			okLv = len(keys) > 0 && kflow[arg] && onlyKeys
 		}
 	}
 	c.Check(R, "requested-levels-are-map-keys/"+sp.Name, sp.Decl.Pos(), okLv, "levels = keys of tileMatrixIDsByLevels(tms, tmIDs)", "the levels handed to addPointsAndSnap are not exactly the keys of the level->id map")
